@@ -1,7 +1,40 @@
-//! PriceChannelStrategy — reference model (TODO).
+//! PriceChannelStrategy. Doc: "Calculates price channel by highest high and lowest low for last
+//! `period` candles." 2 values: `Upper bound`, `Lower bound`. Config `sigma`: "Relative channel size"
+//! in (0; 1].
+//! 1 signal: "When current `high` price touches `upper bound`, returns full buy signal. When current
+//! `low` price touches `lower bound`, returns full sell signal. When both touches occure, or no
+//! toucher, then returns no signal."
 use super::*;
 
-/// returns None until the reference is written
-pub fn make(_cfg: &Cfg, _c0: &RC) -> Option<Box<dyn IndRef>> {
-	None
+#[derive(Clone)]
+pub struct PriceChannelStrategy {
+	sigma: f64,
+	hi: Ext,
+	lo: Ext,
+}
+
+impl IndRef for PriceChannelStrategy {
+	fn values(&mut self, c: &RC) -> Vec<Q> {
+		self.hi.push(c.h);
+		self.lo.push(c.l);
+		let hh = Q::exact(self.hi.highest());
+		let ll = Q::exact(self.lo.lowest());
+		// † follows the implementation: the documentation only calls sigma the "relative channel size";
+		// the channel [LL, HH] is shrunk by that factor around its middle
+		let mid = (hh + ll).scale(0.5);
+		let half = (hh - mid).scale(self.sigma);
+		vec![mid + half, mid - half]
+	}
+	fn signals(&mut self, c: &RC, own: &[f64]) -> Vec<Sig> {
+		// "touches": the bound lies inside the channel, so the price reaches it as soon as it is at or beyond it
+		let up = c.h >= own[0];
+		let down = c.l <= own[1];
+		vec![sig_sign(up as i32 - down as i32)]
+	}
+	indref!(PriceChannelStrategy);
+}
+
+pub fn make(cfg: &Cfg, c0: &RC) -> Option<Box<dyn IndRef>> {
+	let n = cfg.int("period");
+	Some(Box::new(PriceChannelStrategy { sigma: cfg.float("sigma"), hi: Ext::new(n, c0.h), lo: Ext::new(n, c0.l) }))
 }
